@@ -46,6 +46,7 @@ type Path struct {
 	calllog  []string
 	fmtNames map[string]string
 	fmtLenAx map[int]bool
+	ordTerms []*Term // opaque strings compared by order on this path (strLessOpaque)
 	decs     []decRendering // decimal renderings with uninterpreted digits (values of more than decExactDigits digits)
 	envReads []string
 	curInst  func() string
